@@ -154,7 +154,7 @@ def judge(A, obs):
         if m is None:
             devs.append(dev('untainted-node-differs',
                             dict(key=k, observed=got.get(k, R.MISSING), expected=exp.get(k, R.MISSING),
-                                 writers=[dict(line=w['line'], taken=w['taken'], drop=w['drop'], add=w['add'])
+                                 writers=[dict(line=w['line'], taken=w['taken'], drop=sorted(w['drop']), add=w['add'])
                                           for w in A.writers if w['name'] == k])))
             break
         mechs |= m
@@ -166,7 +166,7 @@ def judge(A, obs):
         for w in A.writers:
             if w['name'] not in set(clean):
                 if w['drop']:
-                    mechs.add('F1')
+                    mechs.add(R._dk(w))
                 if w['add']:
                     mechs.add('F3')
     if not devs:
@@ -174,6 +174,8 @@ def judge(A, obs):
             devs.append(dev('tainted-nodes-dropped', dict(keys=diff[:6]), known=R.KEY_F1))
         if 'F3' in mechs:
             devs.append(dev('tainted-nodes-applied', dict(keys=diff[:6]), known=R.KEY_F3))
+        if 'F6' in mechs:
+            devs.append(dev('tainted-nodes-dropped-by-absorbing-block', dict(keys=diff[:6]), known=R.KEY_F6))
         if not mechs:
             devs.append(dev('difference-without-mechanism', dict(keys=diff[:6])))
     return devs
@@ -302,6 +304,10 @@ def pinned(ctx):
                                                          None, 'end'), D('c', 'int', 3)])),
         (R.KEY_F5, dict(t='prog', fam='pinned', items=[G('g', [B([(LIT(True), [D('x', 'int', 1)])], None, 'indent')]),
                                                        B([(LIT(True), [D('y', 'int', 2)])], None, 'end')])),
+        (R.KEY_F6, dict(t='prog', fam='pinned', items=[B([(LIT(True), [B([(LIT(True), [D('b', 'int', 2)])], None, 'indent')])],
+                                                         None, 'indent'),
+                                                       D('c', 'int', 3),
+                                                       B([(LIT(True), [D('d', 'int', 4)])], None, 'end')])),
     ]
 
 
